@@ -1,9 +1,345 @@
-"""C20 translator (Python ast -> Stmt IR). Filled in once LasioModel/Resource.lean is in place."""
+"""C20 translator: Python `ast` of the lasio functions that own file handles -> terms of the `Stmt` IR
+(lean/LasioModel/Resource.lean).  Over-approximating and small on purpose:
+
+  v = open(..) / io.open(..)                  -> openV v          (itself a raise point)
+  with open(..) as f: B                       -> withOpen [[B]]
+  v.close() / if hasattr(v,"close"): v.close()-> close v
+  try/finally, try/except, if, for/while, return, raise -> their namesakes
+      (an except clause is `choice handler raise`: the exception may not match)
+  name = True/False ; if name: / if not name: -> setFlag / ifFlag   (names only ever assigned constants)
+  x = f(..) with f in INLINE                  -> scope [[body of f]] with parameters bound to the caller's
+                                                 variables and `return v` -> move target v ; ret
+  break / continue                            -> the rest of the enclosing block becomes optional (choice rest skip)
+  every other statement containing a call, attribute access or subscript -> mayRaise
+An unknown statement kind makes the whole program `none` (broken tie -> search), never a crash.
+"""
+import ast
+import os
+
+from . import framework as fw
+
+OPEN_CALLS = {"open", "io.open"}
+INLINE = {
+    "reader.open_file": ("reader", "open_file"),
+    "open_with_codecs": ("reader", "open_with_codecs"),
+    "adhoc_test_encoding": ("reader", "adhoc_test_encoding"),
+    "writer.write": ("writer", "write"),
+}
+MAX_DEPTH = 5
 
 
-def emit():
-    return ""
+class Unsupported(Exception):
+    pass
+
+
+class Tr:
+    def __init__(self):
+        self.src = {}
+        self.vars = {}
+        self.flags = {}
+
+    def tree(self, mod):
+        if mod not in self.src:
+            with open(os.path.join(fw.REPO, "lasio", mod + ".py"), encoding="utf-8") as f:
+                self.src[mod] = ast.parse(f.read())
+        return self.src[mod]
+
+    def find(self, mod, name):
+        for n in ast.walk(self.tree(mod)):
+            if isinstance(n, (ast.FunctionDef,)) and n.name == name:
+                return n
+        raise Unsupported("function %s.%s not found" % (mod, name))
+
+    def var(self, scope, name):
+        key = scope.bind.get(name, (scope.uid, name))
+        return self.vars.setdefault(key, len(self.vars))
+
+    def flag(self, scope, name):
+        return self.flags.setdefault((scope.uid, name), len(self.flags))
+
+
+class Scope:
+    n = 0
+
+    def __init__(self, fn, bind, ret_target, depth):
+        Scope.n += 1
+        self.uid = Scope.n
+        self.fn = fn
+        self.bind = bind            # callee name -> caller var key
+        self.ret_target = ret_target  # caller var key (or None)
+        self.depth = depth
+        # names that are only ever assigned the constants True/False -> flags
+        assigned = {}
+        for n in ast.walk(fn):
+            if isinstance(n, ast.Assign) and len(n.targets) == 1 and isinstance(n.targets[0], ast.Name):
+                v = n.value
+                isflag = isinstance(v, ast.Constant) and isinstance(v.value, bool)
+                assigned.setdefault(n.targets[0].id, []).append(isflag)
+            elif isinstance(n, (ast.AugAssign, ast.AnnAssign)) and isinstance(n.target, ast.Name):
+                assigned.setdefault(n.target.id, []).append(False)
+            elif isinstance(n, (ast.For,)):
+                for t in ast.walk(n.target):
+                    if isinstance(t, ast.Name):
+                        assigned.setdefault(t.id, []).append(False)
+            elif isinstance(n, ast.Assign):
+                for t in n.targets:
+                    for x in ast.walk(t):
+                        if isinstance(x, ast.Name):
+                            assigned.setdefault(x.id, []).append(False)
+        params = {a.arg for a in fn.args.args + fn.args.kwonlyargs}
+        self.flagnames = {k for k, v in assigned.items() if all(v) and k not in params}
+
+
+def callname(c):
+    try:
+        return ast.unparse(c.func)
+    except Exception:
+        return "?"
+
+
+def choice(a, b):
+    return a if a == b else "(.choice %s %s)" % (a, b)
+
+
+def seq(xs):
+    """sequence; consecutive raise points are merged (same outcome sets), skips dropped"""
+    flat = []
+    for x in xs:
+        if x == ".skip":
+            continue
+        if x == ".mayRaise" and flat and flat[-1] == ".mayRaise":
+            continue
+        flat.append(x)
+    xs = flat
+    if not xs:
+        return ".skip"
+    r = xs[-1]
+    for x in reversed(xs[:-1]):
+        r = "(.seq %s %s)" % (x, r)
+    return r
+
+
+def risky(node):
+    """does evaluating this node possibly raise (any call, attribute access, subscript, arithmetic)"""
+    for n in ast.walk(node):
+        if isinstance(n, (ast.Call, ast.Attribute, ast.Subscript, ast.BinOp, ast.Compare, ast.Await, ast.Starred,
+                          ast.ListComp, ast.DictComp, ast.SetComp, ast.GeneratorExp, ast.JoinedStr)):
+            return True
+    return False
+
+
+def has_jump(stmts):
+    """break/continue at this loop level (not inside a nested loop)"""
+    for s in stmts:
+        if isinstance(s, (ast.Break, ast.Continue)):
+            return True
+        if isinstance(s, (ast.For, ast.While, ast.FunctionDef, ast.ClassDef)):
+            continue
+        for field in ("body", "orelse", "finalbody"):
+            if has_jump(getattr(s, field, []) or []):
+                return True
+        for hnd in getattr(s, "handlers", []) or []:
+            if has_jump(hnd.body):
+                return True
+    return False
+
+
+class Gen:
+    def __init__(self):
+        self.tr = Tr()
+
+    def handle_target(self, scope, t):
+        if isinstance(t, ast.Name):
+            return t.id
+        if isinstance(t, ast.Tuple) and t.elts and isinstance(t.elts[0], ast.Name):
+            return t.elts[0].id
+        return None
+
+    def call_effect(self, scope, call, target):
+        """effect of one call expression whose result (if a handle) goes to local name `target`"""
+        nm = callname(call)
+        if nm in OPEN_CALLS:
+            if target is None:
+                raise Unsupported("anonymous open() whose handle is not bound to a name")
+            return "(.openV %d)" % self.tr.var(scope, target)
+        if nm in INLINE and scope.depth < MAX_DEPTH:
+            mod, fname = INLINE[nm]
+            fn = self.tr.find(mod, fname)
+            bind = {}
+            params = [a.arg for a in fn.args.args]
+            for p, a in zip(params, call.args):
+                if isinstance(a, ast.Name):
+                    bind[p] = scope.bind.get(a.id, (scope.uid, a.id))
+            for kw in call.keywords:
+                if kw.arg and isinstance(kw.value, ast.Name):
+                    bind[kw.arg] = scope.bind.get(kw.value.id, (scope.uid, kw.value.id))
+            rt = scope.bind.get(target, (scope.uid, target)) if target else None
+            inner = Scope(fn, bind, rt, scope.depth + 1)
+            return "(.scope %s)" % self.block(inner, fn.body)
+        if nm.endswith(".close") and isinstance(call.func, ast.Attribute) and isinstance(call.func.value, ast.Name):
+            return "(.close %d)" % self.tr.var(scope, call.func.value.id)
+        return ".mayRaise"
+
+    def expr_effects(self, scope, e, target=None):
+        """effects of evaluating an expression statement / right-hand side"""
+        if e is None:
+            return []
+        if isinstance(e, ast.Call):
+            inner = [x for a in list(e.args) + [k.value for k in e.keywords] for x in self.expr_effects(scope, a)]
+            return inner + [self.call_effect(scope, e, target)]
+        out = []
+        for c in ast.iter_child_nodes(e):
+            if isinstance(c, ast.expr):
+                out += self.expr_effects(scope, c)
+        nested_calls = [n for n in ast.walk(e) if isinstance(n, ast.Call) and callname(n) in OPEN_CALLS]
+        if nested_calls and not isinstance(e, ast.Call):
+            raise Unsupported("open() nested inside an expression")
+        if not out and risky(e):
+            out = [".mayRaise"]
+        return out
+
+    def stmt(self, scope, s):
+        if isinstance(s, ast.Assign):
+            t = s.targets[0]
+            if isinstance(t, ast.Name) and t.id in scope.flagnames and isinstance(s.value, ast.Constant):
+                return "(.setFlag %d %s)" % (self.tr.flag(scope, t.id), "true" if s.value.value else "false")
+            tgt = self.handle_target(scope, t) if isinstance(s.value, ast.Call) else None
+            eff = self.expr_effects(scope, s.value, tgt)
+            if any(risky(x) for x in s.targets if not isinstance(x, (ast.Name, ast.Tuple))):
+                eff.append(".mayRaise")
+            return seq(eff)
+        if isinstance(s, (ast.AugAssign, ast.AnnAssign)):
+            return seq(self.expr_effects(scope, s.value) + ([".mayRaise"] if not isinstance(s.target, ast.Name) else []))
+        if isinstance(s, ast.Expr):
+            if isinstance(s.value, ast.Constant):
+                return ".skip"
+            return seq(self.expr_effects(scope, s.value))
+        if isinstance(s, ast.Return):
+            eff = []
+            v = s.value
+            if v is not None:
+                first = v.elts[0] if isinstance(v, ast.Tuple) and v.elts else v
+                if isinstance(first, ast.Call):
+                    eff += self.expr_effects(scope, first, None)
+                else:
+                    eff += self.expr_effects(scope, v)
+                if isinstance(first, ast.Name) and scope.ret_target is not None:
+                    src = self.tr.var(scope, first.id)
+                    dst = self.tr.vars.setdefault(scope.ret_target, len(self.tr.vars))
+                    if src != dst:
+                        eff.append("(.move %d %d)" % (dst, src))
+            return seq(eff + [".ret"])
+        if isinstance(s, ast.Raise):
+            return seq((self.expr_effects(scope, s.exc) if s.exc is not None else []) + [".raise"])
+        if isinstance(s, ast.Assert):
+            return ".mayRaise"
+        if isinstance(s, ast.If):
+            t = s.test
+            # `if hasattr(v, "close"): v.close()`  ==  close v
+            if (isinstance(t, ast.Call) and callname(t) == "hasattr" and len(s.body) == 1 and not s.orelse
+                    and isinstance(s.body[0], ast.Expr) and isinstance(s.body[0].value, ast.Call)
+                    and callname(s.body[0].value).endswith(".close")):
+                return self.stmt(scope, s.body[0])
+            neg = False
+            name = t
+            if isinstance(t, ast.UnaryOp) and isinstance(t.op, ast.Not):
+                neg, name = True, t.operand
+            if isinstance(name, ast.Name) and name.id in scope.flagnames:
+                a, b = self.block(scope, s.body), self.block(scope, s.orelse)
+                if neg:
+                    a, b = b, a
+                return "(.ifFlag %d %s %s)" % (self.tr.flag(scope, name.id), a, b)
+            return seq(self.expr_effects(scope, t) + [choice(self.block(scope, s.body), self.block(scope, s.orelse))])
+        if isinstance(s, (ast.For, ast.While)):
+            it = self.expr_effects(scope, s.iter if isinstance(s, ast.For) else s.test)
+            body = self.block(scope, s.body)
+            if isinstance(s, ast.While):
+                body = seq([body] + it)
+            elif risky(s.target) or True:
+                body = seq([".mayRaise", body])      # the iterator's __next__ may raise on every round
+            return seq(it + ["(.loop %s)" % body, choice(self.block(scope, s.orelse), ".skip") if s.orelse else ".skip"])
+        if isinstance(s, ast.With):
+            body = self.block(scope, s.body)
+            for item in reversed(s.items):
+                ce = item.context_expr
+                if isinstance(ce, ast.Call) and callname(ce) in OPEN_CALLS:
+                    body = "(.withOpen %s)" % body
+                else:
+                    body = seq(self.expr_effects(scope, ce) + [body])
+            return body
+        if isinstance(s, ast.Try):
+            b = seq([self.block(scope, s.body), self.block(scope, s.orelse)])
+            if s.handlers:
+                hs = [self.block(scope, x.body) for x in s.handlers]
+                h = ".raise"
+                for x in reversed(hs):
+                    h = choice(x, h)
+                b = "(.tryExcept %s %s)" % (b, h)
+            if s.finalbody:
+                b = "(.tryFinally %s %s)" % (b, self.block(scope, s.finalbody))
+            return b
+        if isinstance(s, (ast.Pass, ast.Import, ast.ImportFrom, ast.Break, ast.Continue, ast.Global, ast.Nonlocal)):
+            return ".skip"
+        if isinstance(s, (ast.FunctionDef, ast.ClassDef)):
+            return ".skip"       # a nested def only binds a name; its body runs when called (-> mayRaise at the call)
+        if isinstance(s, ast.Delete):
+            return ".mayRaise"
+        raise Unsupported(type(s).__name__)
+
+    def block(self, scope, stmts):
+        out = []
+        stmts = list(stmts or [])
+        for i, s in enumerate(stmts):
+            out.append(self.stmt(scope, s))
+            if has_jump([s]) and i + 1 < len(stmts):
+                rest = self.block(scope, stmts[i + 1:])
+                out.append(choice(rest, ".skip"))
+                break
+        return seq(out)
+
+    def program(self, mod, fname, params_caller_owned=()):
+        fn = self.tr.find(mod, fname)
+        scope = Scope(fn, {}, None, 0)
+        for p in params_caller_owned:
+            self.tr.var(scope, p)
+        return self.block(scope, fn.body)
 
 
 def header():
-    return ""
+    return "import LasioModel.Resource"
+
+
+PROGRAMS = [("readProg", "las", "read"), ("writeProg", "las", "write"), ("toCsvProg", "las", "to_csv")]
+
+
+def emit():
+    out = ["/-- control-flow skeletons (handle ownership) of LASFile.read / write / to_csv with their callees inlined;\n"
+           "`none` when the translator met a construct it does not understand -/"]
+    for lean_name, mod, fname in PROGRAMS:
+        g = Gen()
+        try:
+            term = g.program(mod, fname)
+            names = {v: k for k, v in g.tr.vars.items()}
+            out.append("-- variables of %s: %s" % (lean_name, ", ".join("%d=%s" % (i, names[i][1]) for i in sorted(names))))
+            out.append("def %s : Option Lasio.Stmt := some (\n  %s)" % (lean_name, term))
+        except (Unsupported, RecursionError) as e:
+            out.append("-- %s.%s: untranslatable: %s" % (mod, fname, e))
+            out.append("def %s : Option Lasio.Stmt := none" % lean_name)
+    return "\n".join(out)
+
+
+def _group(lines):
+    """each `def` together with its leading comments"""
+    groups, cur = [], []
+    for l in lines:
+        cur.append(l)
+        if l.startswith("def "):
+            groups.append("\n".join(cur))
+            cur = []
+    if cur:
+        groups.append("\n".join(cur))
+    return groups
+
+
+if __name__ == "__main__":
+    print(emit())
